@@ -54,7 +54,14 @@ pub fn check_keys(c: &KeyCase) -> Verdict {
     let kg = match c.seed_array_tail {
         Some(t) => libapi::keygen_seed_from_array(c.hash, &c.levels, &seed, t),
         // the aux-producing way in, for a share of the cases (the keys must not depend on it)
-        None if seed[0] % 4 >= 2 => libapi::keygen(c.hash, &c.levels, &seed, Some(&mut libapi::AuxBuf::new(vec![0u8; if seed[0] % 4 == 2 { 2000 } else { 100 }]))),
+        None if seed[0] % 4 >= 2 => {
+            // a caller buffer that was used for something else before: first byte 0 (= not yet
+            // aux data), arbitrary bytes behind it; sizes below, between and above the layouts
+            let len = [100usize, 300, 700, 1200, 1300, 2000, 5000][(seed[1] % 7) as usize];
+            let mut buf = gen::expand(seed[2] as u64, len);
+            buf[0] = 0;
+            libapi::keygen(c.hash, &c.levels, &seed, Some(&mut libapi::AuxBuf::new(buf)))
+        }
         None => libapi::keygen(c.hash, &c.levels, &seed, None),
     };
     let (sk, pk) = match kg {
@@ -167,6 +174,15 @@ pub fn run(ctx: &Ctx) {
             grid.push(KeyCase { hash: h, levels: l, seed: SeedSpec::Random(87), seed_array_tail: None });
         } else {
             grid.push(KeyCase { hash: h, levels: vec![(1, 2); 7], seed: SeedSpec::Random(86), seed_array_tail: None });
+        }
+    }
+    for (hi, h) in ALL_HASHES.iter().enumerate() {
+        for l in [1usize, 2, 7, 8] {
+            for (bi, b) in [0x00u8, 0x14, 0x53, 0xff, 0x80].iter().enumerate() {
+                if (hi + l + bi) % 2 == 1 {
+                    grid.push(KeyCase { hash: *h, levels: vec![(8, 2); l], seed: SeedSpec::Pattern(5, *b, 0), seed_array_tail: if bi % 2 == 0 { Some(*b) } else { None } });
+                }
+            }
         }
     }
     ctx.enumerate("grid", grid.len() as u64, true, |i| grid[i as usize].clone(), check_keys);
